@@ -40,8 +40,7 @@ Definition save_old (m : omap) : list faction := [AWriteTmp (FGood m); ARemoveTa
 (* which mapping operations rewrite the file *)
 Definition writes (o : dop) (r : dout) : bool :=
   match o, r with
-  | (DSet _ _ | DClear), _ => true
-  | DUpdate m2, _ => negb (match m2 with [] => true | _ => false end)   (* an empty update does not touch the file *)
+  | (DSet _ _ | DClear | DUpdate _), _ => true      (* update({}) rewrites the file too *)
   | (DDel _ | DPopitem _), RKeyError => false
   | (DDel _ | DPopitem _), _ => true
   | DPop _ _, RKeyError => false
@@ -55,6 +54,9 @@ Definition writes (o : dop) (r : dout) : bool :=
 Definition file_step (fs : ffs) (o : dop) : ffs * dout :=
   let '(m', r) := dstep (asdict fs) o in
   (if writes o r then frun fs (save m') else fs, r).
+
+(* opening an archive: the constructor ends in archive.update(dict), which rewrites the file *)
+Definition file_open (fs : ffs) : ffs := frun fs (save (asdict fs)).
 
 Definition file_run (fs : ffs) (ops : list dop) : ffs := fold_left (fun s o => fst (file_step s o)) ops fs.
 
@@ -146,3 +148,17 @@ Proof. destruct n as [|[|[|n]]]; cbn; auto. Qed.
 Theorem file_old_protocol_reader_refuted :
   exists fs m n, asdict (frun fs (firstn n (save_old m))) <> asdict fs /\ asdict (frun fs (firstn n (save_old m))) <> m.
 Proof. exists (mkF (Some (FGood [(1, 10)])) []), [(1, 10); (2, 20)], 2%nat. cbn. split; discriminate. Qed.
+
+(* opening leaves the contents alone, and a crash while opening is harmless *)
+Theorem file_open_same fs : asdict (file_open fs) = asdict fs.
+Proof. reflexivity. Qed.
+
+Theorem file_open_crash_atomic fs st : In st (crash_states fs (save (asdict fs))) -> asdict st = asdict fs.
+Proof. intros H. apply file_crash_atomic in H. tauto. Qed.
+
+(* ... but an opener is a writer: interleaved with a real writer it puts back what it read before
+   (a lost write) - the known finding recorded for C14 *)
+Theorem file_opener_loses_write_refuted :
+  exists fs m, let opened_late := frun (frun fs (save m)) (save (asdict fs)) in
+               asdict opened_late <> m.
+Proof. exists (mkF (Some (FGood [(1, 10)])) []), [(1, 10); (2, 20)]. cbn. discriminate. Qed.
